@@ -911,8 +911,54 @@ def check_neq(a, b, extra=(), timeout_ms=10000):
         s.add(f)
     s.add(neq)
     t = time.time()
+    if DEEP[0]:
+        s.set('timeout', max(1000, timeout_ms // 4))       # a short first attempt, then the arithmetic-only encoding, then the full budget
     r = s.check()
+    if str(r) == 'unknown' and DEEP[0]:
+        # second attempt: uninterpreted applications replaced by constants plus explicit congruence (Ackermann), which leaves
+        # pure nonlinear real arithmetic.  Only `unsat` is taken from it (the abstraction can only add models).
+        s2 = z3.Solver()
+        s2.set('timeout', timeout_ms)
+        for f in ackermannize(list(s.assertions())):
+            s2.add(f)
+        if str(s2.check()) == 'unsat':
+            return 'unsat', None, time.time() - t
+        s.set('timeout', timeout_ms)
+        r = s.check()
     return str(r), (s.model() if str(r) == 'sat' else None), time.time() - t
+
+
+def ackermannize(assertions):
+    """replace every application of an uninterpreted function by a fresh constant (innermost first) and add the congruence
+    axioms between applications of the same function"""
+    cache, apps = {}, {}
+
+    def walk(t):
+        k = t.get_id()
+        if k in cache:
+            return cache[k]
+        if z3.is_app(t) and t.num_args() > 0:
+            kids = [walk(ch) for ch in t.children()]
+            if t.decl().kind() == z3.Z3_OP_UNINTERPRETED:
+                key = (t.decl().name(), tuple(z3.simplify(x).get_id() for x in kids))
+                if key not in apps:
+                    apps[key] = (z3.Real(f'__ack{len(apps)}'), t.decl().name(), kids)
+                out = apps[key][0]
+            else:
+                out = t.decl()(*kids)
+        else:
+            out = t
+        cache[k] = out
+        return out
+    res = [walk(f) for f in assertions]
+    lst = list(apps.values())
+    for i in range(len(lst)):
+        for j in range(i + 1, len(lst)):
+            ci, ni, ai = lst[i]
+            cj, nj, aj = lst[j]
+            if ni == nj and len(ai) == len(aj):
+                res.append(z3.Implies(z3.And(*[x == y for x, y in zip(ai, aj)]), ci == cj))
+    return res
 
 
 def close(x, y, rtol=1e-9, atol=1e-12):
